@@ -3,13 +3,16 @@ from vf.core import Suite, coq_list, coq_bool, coq_N
 from vf.gen import pick_weighted
 
 ID = "C20"
-THEOREMS = ["C20_inv", "C20_alias_refuted", "C20_inv_partial", "C20_deepcopy_restores"]
-MODEL_FILES = ["IndexCache.v"]
+THEOREMS = ["C20_inv", "C20_alias_refuted", "C20_inv_partial", "C20_deepcopy_restores",
+            "C20_ext_inv", "C20_ext_stale_refuted", "C20_ext_inv_partial"]
+MODEL_FILES = ["IndexCache.v", "IndexCacheExt.v"]
 DEEP = True      # what copyIndex copies in the tree under test (True after "fix: copy the entries in copyIndex")
+FIXED = True     # SetIndex caches an index without extension pointers (True after "fix: SetIndex caches an index without ...")
 MODELLED = ("storage/filesystem/index.go: IndexStorage.Index, SetIndex, copyIndex; indexcache.go: statIndexCache Get/Set/Clear "
             "(Model/IndexCache.v: heap of entry cells, slices of addresses, stat key); callers' in-place writes "
             "(worktree_status.go doUpdateFileToIndex, Index.SkipUnless, indexBuilder.Write) are the model's OMutate/OReplace/OAppend/ORemove; "
-            "not modelled: the worktree operations themselves (exercised with injected faults by suite porc), partial writes of the index file")
+            "the extension pointers Cache / ResolveUndo / EndOfIndexEntry carried by copyIndex, set by the decoder, never written by the encoder "
+            "(Model/IndexCacheExt.v: an Index abstracted to 'reports extension data'); not modelled: the worktree operations themselves (exercised with injected faults by suite porc), partial writes of the index file")
 TRUSTED = [
     "C-impl: harness/cmd/c20 kind store (filesystem.Storage over memfs; handles are the *index.Index values returned by Index()) vs "
     "Model/IndexCache.trace on every case",
@@ -17,8 +20,8 @@ TRUSTED = [
 ]
 ASSUMPTIONS = ["every write of .git/index (SetIndex or external) changes its (mtime, size) key: the harness makes external rewrites unique in size "
                "(the premise stated by the property)", "entry names within one index are distinct (sort.Sort is not stable)"]
-RULE = ("store: 3-14 operations over {Index, write through a returned entry, replace/append/remove in a returned slice, SetIndex, external "
-        "rewrite, external delete} with up to 4 live handles; porc: two commits, then 3-9 of {write, delete, add, add -A, remove, move, commit, "
+RULE = ("store: 3-14 operations over {Index, write through a returned entry, replace/append/remove in a returned slice, clear the extension "
+        "pointers of a handle, SetIndex, external rewrite with or without a TREE extension, external delete} with up to 4 live handles; porc: two commits, then 3-9 of {write, delete, add, add -A, remove, move, commit, "
         "status, reset hard/mixed/merge, checkout, external rewrite} with a failure injected at the k-th filesystem call (k swept 1..120); "
         "non-trivial = at least one write through a handle (store) / one injected fault or external rewrite (porc)")
 
@@ -38,10 +41,11 @@ def gen_store(rng):
     if rng.random() < 0.7:
         ents = [[newname(), rng.randrange(1, 200)] for _ in range(rng.randrange(0, 5))]
         rng.shuffle(ents)
-        ops.append({"op": "external", "entries": ents})
+        ops.append({"op": "external", "entries": ents, "ext": rng.random() < 0.5})
     for _ in range(n):
         k = pick_weighted(rng, [(4, "index"), (5 if nh else 0, "mutate"), (2 if nh else 0, "replace"), (2 if nh else 0, "append"),
-                                (1 if nh else 0, "remove"), (3 if nh else 0, "setindex"), (2, "external"), (0.5, "extdelete")])
+                                (1 if nh else 0, "remove"), (3 if nh else 0, "setindex"), (2, "external"), (0.5, "extdelete"),
+                                (0.7 if nh else 0, "drop")])
         h = rng.randrange(nh) if nh else 0
         if k == "index":
             ops.append({"op": "index"})
@@ -59,7 +63,9 @@ def gen_store(rng):
         elif k == "external":
             ents = [[newname(), rng.randrange(1, 200)] for _ in range(rng.randrange(0, 5))]
             rng.shuffle(ents)
-            ops.append({"op": "external", "entries": ents})
+            ops.append({"op": "external", "entries": ents, "ext": rng.random() < 0.5})
+        elif k == "drop":
+            ops.append({"op": "drop", "h": h})
         else:
             ops.append({"op": "extdelete"})
     return {"bucket": "store", "kind": "store", "ops": ops}
@@ -85,7 +91,24 @@ def coq_op(o):
         return "OSetIndex %d" % o["h"]
     if k == "external":
         return "OExternal %s" % coq_list([coq_val(n, v) for n, v in o["entries"]])
+    if k == "drop":
+        return "OMutate %d 4000 %s" % (o["h"], coq_N(0))      # nothing happens to the entries (no slice is that long)
     return "OExtDelete"
+
+
+def coq_eop(o):
+    k = o["op"]
+    if k == "index":
+        return "EIndex"
+    if k == "setindex":
+        return "ESetIndex %d" % o["h"]
+    if k == "drop":
+        return "EDrop %d" % o["h"]
+    if k == "external":
+        return "EExternal %s" % coq_bool(o.get("ext", False))
+    if k == "extdelete":
+        return "EExtDelete"
+    return "ENop"
 
 
 def split_top(s):
@@ -110,7 +133,7 @@ def split_top(s):
 class Store(Suite):
     name = "store"
     go_cmd = "c20"
-    coq_imports = "From GoGit Require Import Model.IndexCache."
+    coq_imports = "From GoGit Require Import Model.IndexCache Model.IndexCacheExt."
     quick_n = 250
     thorough_n = 5000
 
@@ -118,7 +141,8 @@ class Store(Suite):
         return [gen_store(rng) for _ in range(n)]
 
     def model_expr(self, c):
-        return "c20_store %s %s" % (coq_bool(DEEP), coq_list([coq_op(o) for o in c["ops"]]))
+        return "OList [c20_store %s %s; c20_ext %s %s]" % (coq_bool(DEEP), coq_list([coq_op(o) for o in c["ops"]]),
+                                                           coq_bool(FIXED), coq_list([coq_eop(o) for o in c["ops"]]))
 
     def nontrivial(self, c):
         return any(o["op"] == "mutate" for o in c["ops"])
@@ -131,14 +155,23 @@ class Store(Suite):
             if r is None or r.get("panic"):
                 fails[c["id"]] = "no reply / panic"
                 continue
-            for k, step in enumerate(split_top(r["out"])):
+            entries, exts = split_top(r["out"])
+            for k, step in enumerate(split_top(entries)):
                 vd = split_top(step)
                 if len(vd) != 2 or vd[0] != vd[1]:
                     fails[c["id"]] = "after operation %d (%s): Index() returns %s, the file holds %s" % (k, c["ops"][k]["op"], vd[0][:200], vd[-1][:200])
                     break
+            else:
+                for k, step in enumerate(split_top(exts)):
+                    vd = split_top(step)
+                    if len(vd) != 2 or vd[0] != vd[1]:
+                        fails[c["id"]] = "after operation %d (%s): extensions: Index() reports %s, the file has %s" % (k, c["ops"][k]["op"], vd[0], vd[-1])
+                        break
         return fails
 
     def finding_class(self, case, reason, reply):
+        if "extensions:" in reason:
+            return "stale-extensions"
         if any(o["op"] == "mutate" for o in case["ops"]):
             return "shallow-copy-alias"
         return None
